@@ -517,27 +517,38 @@ def mlUpdate (ml : ML) (d : List Name) (t : Nat) : ML :=
 
 def mlGet (ml : ML) (x : Name) : Option MLVal := (ml.find? (fun p => decide (p.1 = x))).map (·.2)
 
+/-- the key list of `__M_locals.update(…)` after a `<% %>` block declaring `d` (regenerated from `visitCode`: the
+declared identifiers of the block – not minus the arguments of the body) -/
+def mlKeys (args d : List Name) : List Name :=
+  if Generated.Names.mlocalsUpdateMinusArgs then d.filter (fun x => decide (x ∉ args)) else d
+
+/-- own `<% %>` blocks of a node list: their declared identifiers, in order -/
+def codesOf : Body → List (List Name)
+  | .nil => []
+  | .code _ d _ r => d :: codesOf r
+  | .leaf _ _ _ r | .text _ _ r | .page _ _ _ r | .defn _ _ _ _ _ r | .block _ _ _ _ _ _ r | .call _ _ _ _ _ r => codesOf r
+
 /-- `__M_locals` as `render_body` and the closures nested in it maintain it, at the moment the node `stop`
-starts executing.  Everything nested in `render_body` is written with `in_def = False`, so the `<% %>`
-blocks of anonymous blocks and `<%call>` bodies update the same dictionary; these execute in place (a
-`<%call>` body: when the called def invokes `caller.body()` – assumed to happen once, at the call).
-Returns the dictionary and whether `stop` was reached. -/
-def mlRun (stop : Nat) : Body → ML × Bool → ML × Bool
+starts executing (`args`: `argument_declared` of the body).  Everything nested in `render_body` is written with
+`in_def = False`, so the `<% %>` blocks of anonymous blocks and `<%call>` bodies update the same dictionary; these
+execute in place (a `<%call>` body: when the called def invokes `caller.body()` – assumed to happen once, at the
+call).  Returns the dictionary and whether `stop` was reached. -/
+def mlRun (args : List Name) (stop : Nat) : Body → ML × Bool → ML × Bool
   | _, (ml, true) => (ml, true)
   | .nil, s => s
-  | .leaf t _ _ r, (ml, false) => if t = stop then (ml, true) else mlRun stop r (ml, false)
-  | .text t _ r, (ml, false) => if t = stop then (ml, true) else mlRun stop r (ml, false)
-  | .page t _ _ r, (ml, false) => if t = stop then (ml, true) else mlRun stop r (ml, false)
+  | .leaf t _ _ r, (ml, false) => if t = stop then (ml, true) else mlRun args stop r (ml, false)
+  | .text t _ r, (ml, false) => if t = stop then (ml, true) else mlRun args stop r (ml, false)
+  | .page t _ _ r, (ml, false) => if t = stop then (ml, true) else mlRun args stop r (ml, false)
   | .code t d _ r, (ml, false) =>
-      if t = stop then (ml, true) else mlRun stop r (mlUpdate ml d t, false)
-  | .defn t _ _ _ _ r, (ml, false) => if t = stop then (ml, true) else mlRun stop r (ml, false)
+      if t = stop then (ml, true) else mlRun args stop r (mlUpdate ml (mlKeys args d) t, false)
+  | .defn t _ _ _ _ r, (ml, false) => if t = stop then (ml, true) else mlRun args stop r (ml, false)
   | .block t nm _ _ _ b r, (ml, false) =>
       if t = stop then (ml, true) else
       match nm with
-      | none => mlRun stop r (mlRun stop b (ml, false))
-      | some _ => mlRun stop r (ml, false)
+      | none => mlRun args stop r (mlRun args stop b (ml, false))
+      | some _ => mlRun args stop r (ml, false)
   | .call t _ _ _ b r, (ml, false) =>
-      if t = stop then (ml, true) else mlRun stop r (mlRun stop b (ml, false))
+      if t = stop then (ml, true) else mlRun args stop r (mlRun args stop b (ml, false))
 
 /-- does the node list (through anonymous blocks and call bodies) contain the node `stop` -/
 def reaches (stop : Nat) : Body → Bool
